@@ -58,19 +58,20 @@ type Gen struct {
 	n    int
 	Feat map[string]bool // features actually generated
 
-	globals      []*Var
-	consts       []*Var
-	ovr          []*Var
-	helpers      []*Func
-	nest         bool   // control-nesting profile (see genStmts)
-	script       string // forced nest of the control-nesting profile: L loop, S switch, s single-body switch, C conditional continue / break
-	scriptPos    int
-	singleSwitch bool
-	wideSig      []*Type // parameter types of the last wide-signature helper
-	wideRet      *Type
-	calledFns    map[*Func]int // how often each helper has been called so far
-	structs      []*Type
-	fx           *fnCtx
+	globals        []*Var
+	consts         []*Var
+	ovr            []*Var
+	helpers        []*Func
+	nest           bool   // control-nesting profile (see genStmts)
+	script         string // forced nest of the control-nesting profile: L loop, S switch, s single-body switch, C conditional continue / break
+	scriptPos      int
+	singleSwitch   bool
+	noAbsIntDivMod bool    // inside the integer side of a mixed abstract expression (finding F149)
+	wideSig        []*Type // parameter types of the last wide-signature helper
+	wideRet        *Type
+	calledFns      map[*Func]int // how often each helper has been called so far
+	structs        []*Type
+	fx             *fnCtx
 	// globals accessed (transitively) by each helper
 	access    map[*Func]map[*Var]bool
 	writes    map[*Func]bool // helper has side effects (writes globals / atomics)
